@@ -73,17 +73,42 @@ theorem sorted_getD {l : List Nat} (h : Sorted l) {i j : Nat} (hij : i ≤ j) (h
   · exact (List.pairwise_iff_getElem.mp h) i j hi hj h'
   · exact Nat.le_refl _
 
+/-- the fuel of `bsLoop` is irrelevant once it exceeds the size of the window (no assumption on
+    the haystack) -/
+theorem bsLoop_fuel (hay : List Nat) (needle : Nat) (f f' : Nat) (start end_ : Int)
+    (h : (end_ - start + 1).toNat < f) (h' : (end_ - start + 1).toNat < f') :
+    bsLoop hay needle f start end_ = bsLoop hay needle f' start end_ := by
+  induction f generalizing f' start end_ with
+  | zero => omega
+  | succ f ih =>
+    cases f' with
+    | zero => omega
+    | succ f' =>
+      simp only [bsLoop]
+      by_cases hle : start ≤ end_
+      · simp only [hle, if_true]
+        have hm : (start + end_).tdiv 2 = (start + end_) / 2 ∨ (start + end_).tdiv 2 = -((-(start + end_)) / 2) := by
+          rw [tdiv_two]; split <;> simp
+        generalize (start + end_).tdiv 2 = middle at hm
+        split
+        · exact ih f' start (middle - 1) (by omega) (by omega)
+        · split
+          · exact ih f' (middle + 1) end_ (by omega) (by omega)
+          · rfl
+      · simp [hle]
+
 /-- The loop of `binary_search`, for every window: if everything left of `start` is smaller and
     everything right of `end_` is larger than the needle, the loop answers membership. -/
-theorem bsLoop_iff (hay : List Nat) (needle : Nat) (hs : Sorted hay) (start end_ : Int)
+theorem bsLoop_iff (hay : List Nat) (needle : Nat) (hs : Sorted hay) (fuel : Nat) (start end_ : Int)
+    (hf : (end_ - start + 1).toNat < fuel)
     (h0 : 0 ≤ start) (h1 : end_ < hay.length)
     (hlo : ∀ i : Nat, (i : Int) < start → i < hay.length → hay.getD i 0 < needle)
     (hhi : ∀ i : Nat, end_ < (i : Int) → i < hay.length → needle < hay.getD i 0) :
-    bsLoop hay needle start end_ = true ↔ needle ∈ hay := by
-  generalize hn : (end_ - start + 1).toNat = n
-  induction n using Nat.strongRecOn generalizing start end_ with
-  | _ n ih =>
-    rw [bsLoop]
+    bsLoop hay needle fuel start end_ = true ↔ needle ∈ hay := by
+  induction fuel generalizing start end_ with
+  | zero => omega
+  | succ fuel ih =>
+    simp only [bsLoop]
     by_cases hle : start ≤ end_
     · rw [if_pos hle]
       have hm : (start + end_).tdiv 2 = (start + end_) / 2 := by rw [tdiv_two]; split <;> omega
@@ -92,7 +117,7 @@ theorem bsLoop_iff (hay : List Nat) (needle : Nat) (hs : Sorted hay) (start end_
       have h3 : middle.toNat < hay.length := by omega
       by_cases hgt : hay.getD middle.toNat 0 > needle
       · rw [if_pos hgt]
-        apply ih _ (by omega) start (middle - 1) h0 (by omega) hlo _ rfl
+        apply ih start (middle - 1) (by omega) h0 (by omega) hlo _
         intro i hi hil
         by_cases hie : end_ < (i : Int)
         · exact hhi i hie hil
@@ -102,7 +127,7 @@ theorem bsLoop_iff (hay : List Nat) (needle : Nat) (hs : Sorted hay) (start end_
       · rw [if_neg hgt]
         by_cases hlt : hay.getD middle.toNat 0 < needle
         · rw [if_pos hlt]
-          apply ih _ (by omega) (middle + 1) end_ (by omega) h1 _ hhi rfl
+          apply ih (middle + 1) end_ (by omega) (by omega) h1 _ hhi
           intro i hi hil
           by_cases his : (i : Int) < start
           · exact hlo i his hil
@@ -131,7 +156,7 @@ theorem binarySearch_iff {hay : List Nat} (hs : Sorted hay) (needle : Nat) :
   split
   · next h => simp [List.eq_nil_of_length_eq_zero h]
   · next h =>
-    apply bsLoop_iff hay needle hs 0 _ (by omega) (by omega)
+    apply bsLoop_iff hay needle hs _ 0 _ (by omega) (by omega) (by omega)
     · intro i hi; omega
     · intro i hi hil; omega
 
